@@ -1,6 +1,8 @@
 (* C13 — executable model of the round trip  explorer summary -> CSV -> engine.
 
-   Transcribed from /repo (as it is now, i.e. after the D8 / D15 fixes):
+   Transcribed from /repo (as it is now: after the D8 / D15 fixes, b0400cb "CellString returns the cell's text
+   verbatim", 43fcffa "POST /solutions clears the solution pool", ac75323 / 09c7c9e / af8065d (400 for too few columns,
+   unknown variable column, non-numeric As-Is cell), c235143 (label lookup scans every row)):
      internal/pkg/annealing/solution/set/encoding/csv/Marshaler.go   summaryToCsvString, deriveHeaders, joinAttributes
      internal/pkg/scenario/Saver.go                                   row order (As-Is first), labels, notes
      cmd/cremengine/engine/api/v1solutionSetHandler.go                v1PostSolutionsHandler, deriveSolutionsRequestTable,
@@ -92,14 +94,12 @@ Section Engine.
     | r :: l' => do b <- r; if b then Ok true else any_res_early l'
     end.
 
-  (* deriveSolutionsRequestTable: the three mandatory headings *)
+  (* deriveSolutionsRequestTable: the three mandatory headings (headerLength >= 3 has been checked) *)
   Definition header_checks (h : list string) : res bool :=
     do h0 <- index h 0;                                          (* Header()[0] *)
-    if List.length h <? 2 then Panic                             (* Header()[headerLength-2] *)
-    else
-      do ha <- index h (List.length h - 2);
-      do hs <- index h (List.length h - 1);
-      Ok (String.eqb h0 "Solution" && String.eqb ha "Actions" && String.eqb hs "Summary").
+    do ha <- index h (List.length h - 2);                        (* Header()[headerLength-2] *)
+    do hs <- index h (List.length h - 1);
+    Ok (String.eqb h0 "Solution" && String.eqb ha "Actions" && String.eqb hs "Summary").
 
   (* the per-cell switch on the heading of the column *)
   Definition validate_cell (t : table) (col row : nat) : res bool :=
@@ -118,6 +118,8 @@ Section Engine.
     match l with
     | Rejected => Ok None
     | Loaded t =>
+      if List.length (header t) <? 3 then Ok None                (* "needs at least the 'Solution', 'Actions' and 'Summary' columns" *)
+      else
       do hc <- header_checks (header t);
       do dims <- column_and_row_size t;
       let '(cols, rows) := dims in
@@ -143,18 +145,24 @@ Section Engine.
     | _, _ => false
     end.
 
-  (* verifySolutionSummaryMatchesScenario: every row labelled As-Is must carry the as-is model's values *)
+  (* verifySolutionSummaryMatchesScenario: every row labelled As-Is must carry the as-is model's values; false = 400 *)
   Definition verify_asis_row (t : table) (row : nat) : res bool :=
     all_res_early (map (fun col =>
         do name <- index (header t) col;                         (* Header()[colIndex] *)
-        do x <- cell_float64 t col row;                          (* .(float64) *)
-        match assoc name asis with
-        | None => Panic                                          (* DecisionVariable(name) of an unknown name *)
-        | Some v => Ok (num_feq x v)
+        do v <- cell t col row;                                  (* Cell(colIndex,rowIndex).(float64) with ", ok" *)
+        match v with
+        | VNum x =>
+          match assoc name asis with
+          | None => Ok false                                     (* not a decision variable of the scenario: 400 *)
+          | Some m => Ok (num_feq x m)
+          end
+        | _ => Ok false                                          (* As-Is value is not a number: 400 *)
         end) (seq 1 (List.length asis))).
 
   Definition verify_summary (t : table) : res bool :=
     do dims <- column_and_row_size t;
+    if fst dims <? List.length asis + 3 then Ok false            (* no column for each decision variable: 400 *)
+    else
     all_res_early (map (fun row =>
         do l <- cell_string fmt t 0 row;
         if String.eqb l "As-Is" then verify_asis_row t row else Ok true) (seq 0 (snd dims))).
@@ -174,7 +182,7 @@ Section Engine.
     | None => Ok (S400, st)
     | Some t =>
       do ok <- verify_summary t;
-      if ok then Ok (S200, mkState (Some t) (s_pool st))        (* the pool is NOT reset *)
+      if ok then Ok (S200, mkState (Some t) [])                 (* updateSolutionSummary: solutionPool.Clear() *)
       else Ok (S400, st)
     end.
 
@@ -183,7 +191,7 @@ Section Engine.
     do dims <- column_and_row_size t;
     any_res_early (map (fun row => do l <- cell_string fmt t 0 row; Ok (String.eqb l label)) (seq 0 (snd dims))).
 
-  (* getSolutionDetail: rows 1.. only; None = nil *)
+  (* getSolutionDetail: every row; None = nil *)
   Fixpoint first_detail (t : table) (cols : nat) (label : string) (rows : list nat) : res (option (string * string)) :=
     match rows with
     | [] => Ok None
@@ -200,7 +208,7 @@ Section Engine.
 
   Definition get_solution_detail (t : table) (label : string) : res (option (string * string)) :=
     do dims <- column_and_row_size t;
-    first_detail t (fst dims) label (seq 1 (snd dims - 1)).
+    first_detail t (fst dims) label (seq 0 (snd dims)).
 
   Inductive found :=
   | NotFound                                         (* 404 *)
@@ -264,7 +272,7 @@ Definition reserved_heading (s : string) : bool :=
 
 Definition row_ok (nvars : nat) (r : srow) : bool :=
   Nat.eqb (List.length (r_values r)) nvars
-  && is_text (r_label r) && is_text (r_note r)
+  && is_text (r_note r)
   && forallb is_number (r_values r)
   && forallb is_hexcolon (chars (r_enc r)).
 
@@ -281,7 +289,7 @@ Definition asis_values_match (asis : list (string * num)) (r : srow) : bool :=
                        | Some (TNum x) => num_feq x (snd (snd p))
                        | _ => false end) (combine (r_values r) asis).
 
-(* everything the theorems need about a summary EXCEPT that its encodings survive the type cast *)
+(* everything the theorems need about a summary *)
 Definition wf_summary (asis : list (string * num)) (sm : list srow) : bool :=
   match sm with
   | [] => false
@@ -292,7 +300,5 @@ Definition wf_summary (asis : list (string * num)) (sm : list srow) : bool :=
     && forallb (fun p => negb (reserved_heading (fst p))) asis
     && nodup_labels (map fst asis)
   end.
-
-Definition encodings_stable (sm : list srow) : bool := forallb (fun r => cast_stable (r_enc r)) (tl sm).
 
 Definition fresh : state := mkState None [].
